@@ -66,16 +66,20 @@ extern int mpt_stream_sync(MPT_STRUCT(stream) *srm, size_t idlen, const MPT_STRU
 		}
 		/* get message data */
 		if (srm->_rd._state.data.msg < 0) {
-			if ((ret = mpt_stream_poll(srm, POLLIN, timeout)) < 0) {
-				return MPT_ERROR(BadOperation);
+			/* buffered data may hold a complete frame: wait for input only when it does not */
+			ret = srm->_rd.data.len ? mpt_queue_recv(&srm->_rd) : 0;
+			if (!ret || ret == MPT_ERROR(MissingData)) {
+				if ((ret = mpt_stream_poll(srm, POLLIN, timeout)) < 0) {
+					return MPT_ERROR(BadOperation);
+				}
+				if (!ret) {
+					return count;
+				}
+				if (timeout > 0) {
+					timeout = 0;
+				}
+				ret = mpt_queue_recv(&srm->_rd);
 			}
-			if (!ret) {
-				return count;
-			}
-			if (timeout > 0) {
-				timeout = 0;
-			}
-			ret = mpt_queue_recv(&srm->_rd);
 			/* decoder needs space on full input buffer: enlarge while decoding makes progress */
 			if (ret == MPT_ERROR(MissingBuffer)) {
 				size_t curr = (size_t) -1;
